@@ -78,7 +78,7 @@ def expected_d(case, out, keep_int):
     return to_val(case, n, False)
 
 
-def call_py(case, fast=False, compact=False):
+def call_py(case, fast=False, compact=False, via_use_c=False):
     from dtaidistance import dtw, dtw_ndim
     nd = case.get("ndim", 1)
     kw = dc.py_kwargs(case)
@@ -87,7 +87,9 @@ def call_py(case, fast=False, compact=False):
     mod = dtw if nd == 1 else dtw_ndim
     extra = {"psi_neg": bool(case.get("psi_neg", True)), "keep_int_repr": bool(case.get("keep_int_repr", False))}
     try:
-        if fast:
+        if via_use_c:
+            r = mod.warping_paths(s1, s2, use_c=True, **extra, **kw)     # the generic entry point handing over to C
+        elif fast:
             r = mod.warping_paths_fast(s1, s2, compact=compact, **extra, **kw)
         else:
             r = mod.warping_paths(s1, s2, **extra, **kw)
@@ -176,7 +178,8 @@ def run(ctx):
         if tags:
             res.nontrivial.add(dc.case_key(case))
         for route, (d, mat) in (("python warping_paths", call_py(case)),
-                                ("C warping_paths_fast", call_py(case, fast=True))):
+                                ("C warping_paths_fast", call_py(case, fast=True)),
+                                ("C warping_paths(use_c=True)", call_py(case, via_use_c=True))):
             res.evaluations += 1
             if mat is None:
                 res.violations.append({"clause": "routine raised", "route": route, "case": case, "got": d})
